@@ -898,6 +898,8 @@ class Slices(Stream):
 
     def corpus(self):
         out = []
+        if os.environ.get('C11_NO_CORPUS'):      # developer aid: judge the generator alone
+            return out
         for p in sorted(glob.glob(os.path.join(VERIF, 'corpus', 'C11', '*.json'))):
             with open(p) as f:
                 d = json.load(f)
